@@ -715,6 +715,10 @@ fn eval_c13(job: &Job) -> JobResult {
     if stop_stride == 0 {
         // adaptive: about 30 stop points per interval (always including k = 1)
         stop_stride = (n / 30).max(1);
+    } else if stop_stride == 1 && n > 120 {
+        // thorough: every stop point for runs of up to 120 iterations, about 120 evenly spaced
+        // ones for longer runs (the cost is quadratic in the number of iterations)
+        stop_stride = (n / 120).max(1);
     }
     'outer: for &c in &intervals {
         let mut k = 1;
